@@ -116,6 +116,8 @@ struct Case {
     expr: String,
     in_sub: bool,
     is_string: bool,
+    /// in the SUB variant: the earlier constants are defined inside the SUB and shadow global constants of the same names
+    shadow: bool,
 }
 
 impl Case {
@@ -127,11 +129,19 @@ impl Case {
         }
     }
     fn prelude_global(&self) -> String {
-        // in the sub variant the earlier constants stay global, the constant under test is local
-        self.prelude.clone()
+        if !self.shadow {
+            // in the sub variant the earlier constants stay global, the constant under test is local
+            return self.prelude.clone();
+        }
+        // global constants of the same names with other values: the SUB's own definitions must win
+        self.prelude
+            .lines()
+            .filter_map(|l| l.strip_prefix("CONST ").and_then(|r| r.split_once(" = ")).map(|(n, _)| n.to_string()))
+            .map(|n| if n.ends_with('$') { format!("CONST {} = \"zz\"\n", n) } else { format!("CONST {} = 77\n", n) })
+            .collect()
     }
     fn prelude_local(&self) -> String {
-        String::new()
+        if self.shadow { self.prelude.clone() } else { String::new() }
     }
     fn p1(&self) -> String {
         self.wrap(&format!("CONST {} = {}\nPRINT {}\n", self.name, self.expr, self.name))
@@ -155,7 +165,7 @@ impl Case {
         self.wrap(&body)
     }
     fn inputs(&self) -> Value {
-        json!({"prelude": self.prelude, "name": self.name, "expr": self.expr, "in_sub": self.in_sub, "is_string": self.is_string})
+        json!({"prelude": self.prelude, "name": self.name, "expr": self.expr, "in_sub": self.in_sub, "is_string": self.is_string, "shadow": self.shadow})
     }
     fn from_inputs(v: &Value) -> Case {
         Case {
@@ -164,6 +174,7 @@ impl Case {
             expr: v["expr"].as_str().unwrap_or("1").to_string(),
             in_sub: v["in_sub"].as_bool().unwrap_or(false),
             is_string: v["is_string"].as_bool().unwrap_or(false),
+            shadow: v["shadow"].as_bool().unwrap_or(false),
         }
     }
 }
@@ -264,7 +275,8 @@ fn one_case(sh: &mut Shard, tape: &[u32]) -> Result<(), Violation> {
     let suffix = if is_string { "$" } else { *g.t.pick(&["", "", "", "%", "&", "!", "#"]) };
     let name = format!("{}{}", g.t.pick(&["CX", "Limit", "k"]), suffix);
     let in_sub = g.t.chance(1, 4);
-    let case = Case { prelude, name, expr, in_sub, is_string };
+    let shadow = in_sub && !prelude.is_empty() && g.t.chance(1, 2);
+    let case = Case { prelude, name, expr, in_sub, is_string, shadow };
     sh.eval();
     sh.journal(&case.p1());
     let (p1, _p2) = check(&case)?;
@@ -276,7 +288,7 @@ fn one_case(sh: &mut Shard, tape: &[u32]) -> Result<(), Violation> {
         Obs::Other(_) => "constant:other",
     });
     sh.class(&format!("ops:{}", op_class(&case.expr)));
-    sh.class(if case.in_sub { "scope:sub" } else { "scope:module" });
+    sh.class(if case.shadow { "scope:sub-shadowing-global-constants" } else if case.in_sub { "scope:sub" } else { "scope:module" });
     sh.class(&format!("name-suffix:{}", if suffix.is_empty() { "bare" } else { suffix }));
     if g.ops >= 1 {
         sh.nontrivial(hash64(&(&case.prelude, &case.name, &case.expr, case.in_sub)));
